@@ -98,6 +98,19 @@ def hostile_corpus(rng):
     L(adv([gen.rlp_list(fields).hex()], [[]]))
     L(adv([hdr.hex()], [[gen.rlp_list(fields).hex()]]))
 
+    # coinbase transactions whose SHA-256 midstate byte counter (first 8 bytes) is huge: the padding of
+    # the tail then needs counter*8 to fit 64 bits
+    for counter in (b"\xff" * 8, (2 ** 61).to_bytes(8, "big"), (2 ** 61 - 1).to_bytes(8, "big"),
+                    (2 ** 63).to_bytes(8, "big"), b"\x00" * 8):
+        for tail in (0, 40):
+            cbf = [gen.rlp_str(f) for f in hdr.fields[:-1]] + [gen.rlp_str(counter + gen.rbytes(rng, 32 + tail))]
+            L(adv([gen.rlp_list(cbf).hex()], [[]]))
+            L(adv([hdr.hex()], [[gen.rlp_list(cbf).hex()]]))
+    # request lines over 1 MiB (padding inside the document)
+    for doc in ({"command": "version"}, {"command": "getPubKey", "version": 5, "keyId": gen.PATHS[0]}):
+        body = json.dumps(doc).encode()
+        out.append(body[:-1] + b" " * ((1 << 20) + 7) + b"}")
+        DEEP.add(out[-1])
     # deeply nested RLP inside a header field
     def nest(d):
         e = b"\x80"
